@@ -529,12 +529,12 @@ theorem rnpRec_four {v nm : α → Nat} [BEq α] (hckk : CkkValid v nm) (hgen : 
           refine foldE_inv (fun st : Bins α × Nat => IsPartition v items 4 st.1 ∨ st.1 = best) _ tops ?_
             (best, spread best.sums) st (Or.inr rfl) hf
           intro s top s' htop hs hstep
-          simp only at hstep
+          try simp only at hstep
           cases h1 : rnpRec v nm true fuel rf 2 prior s.1 (top.lists.getD 0 []) with
           | error e => rw [h1] at hstep; cases hstep
           | ok nb1 =>
             rw [h1] at hstep
-            simp only at hstep
+            try simp only at hstep
             cases h2 : rnpRec v nm true fuel rf 2 prior s.1 (top.lists.getD 1 []) with
             | error e => rw [h2] at hstep; cases hstep
             | ok nb2 =>
